@@ -149,6 +149,8 @@ def deep_equal(a, b):
         return len(a) == len(b) and all(deep_equal(x, y) for x, y in zip(a, b))
     if isinstance(a, float):
         return a == b or (math.isnan(a) and math.isnan(b))
+    if isinstance(a, np.ndarray):
+        return a.dtype == b.dtype and a.shape == b.shape and a.tobytes() == b.tobytes()
     return a == b
 
 
@@ -182,6 +184,13 @@ def search_runs(chk, r, n):
         grid = cards.default_grid(7, 1e-2)
         if r.random() < 0.5:
             grid = list(reversed(grid))  # legal: the interpolator sorts it
+        grid_kind = "list"
+        if i_run in (1, 4) or r.random() < 0.2:
+            # the grid handed over as a float64 array (as the package's own tests do), ending one ulp
+            # below 1 (an exponentiated linear grid misses the end point by rounding)
+            grid = np.array(sorted(grid), dtype=float)
+            grid[-1] = np.nextafter(1.0, 0.0)
+            grid_kind = "ndarray ending at 1-ulp"
         o = cards.obs(obs, prDIS=process, ProjectileDIS=r.choice(list(cards.PROJECTILES)) if process == "CC" else r.choice(["electron", "positron"]), TargetDIS=tgt, interpolation_xgrid=grid)
         proj_given = o["ProjectileDIS"]
         if process != "CC" and proj_given == "electron" and r.random() < 0.3:
@@ -205,7 +214,7 @@ def search_runs(chk, r, n):
             if not (deep_equal(out.theory, t0) and deep_equal(out.observables, o0)):
                 problems.append("output does not echo the cards it was given")
             used = [float(v) for v in runner.configs.managers["interpolator"].xgrid.raw]
-            if [float(v) for v in out["xgrid"]["grid"]] != used or used != sorted(set(o0["interpolation_xgrid"])) or out["xgrid"]["log"] != o0["interpolation_is_log"] or out["polynomial_degree"] != o0["interpolation_polynomial_degree"]:
+            if [float(v) for v in out["xgrid"]["grid"]] != used or used != sorted(set(float(v_) for v_ in o0["interpolation_xgrid"])) or out["xgrid"]["log"] != o0["interpolation_is_log"] or out["polynomial_degree"] != o0["interpolation_polynomial_degree"]:
                 problems.append("output does not record the grid actually used")
             for name, kins in obs.items():
                 for kin, res_ in zip(kins, out[name]):
@@ -229,7 +238,7 @@ def search_runs(chk, r, n):
             k = f"{scheme}/{process}:{type(e).__name__}:{str(e)[:80]}"
             chk.extra["search_exceptions"][k] = chk.extra["search_exceptions"].get(k, 0) + 1
             continue
-        sample = dict(FNS=scheme, process=process, TMC=tmc, target=tgt, observables={k: len(v) for k, v in obs.items()}, problems=problems)
+        sample = dict(FNS=scheme, process=process, TMC=tmc, target=tgt, grid=grid_kind, observables={k: len(v) for k, v in obs.items()}, problems=problems)
         chk.search_case("cards_untouched_and_echoed", not problems, what="; ".join(problems) or "-", data=sample, sample=sample)
 
 
